@@ -244,6 +244,22 @@ def _pairwise(a, b, is_min):
     return (_np.minimum if is_min else _np.maximum)(a, b)
 
 
+def hypot(a, b, *args, **kw):
+    """element-wise sqrt(a^2 + b^2) (shared sqrt encoding)"""
+    if args or kw or not (_holds_sym(a) or _holds_sym(b) or isinstance(a, Sym) or isinstance(b, Sym)):
+        return _np.hypot(a, b, *args, **kw)
+    from .core import _sqrt
+
+    if isinstance(a, _np.ndarray) or isinstance(b, _np.ndarray):
+        aa, bb = _np.broadcast_arrays(_np.asarray(a, dtype=object), _np.asarray(b, dtype=object))
+        out = _np.empty(aa.shape, dtype=object)
+        for idx in _np.ndindex(aa.shape):
+            out[idx] = hypot(aa[idx], bb[idx])
+        return out.view(SymArray)
+    x, y = _toreal(lift(a)), _toreal(lift(b))
+    return _sqrt(SymReal(x * x + y * y))
+
+
 def maximum(a, b, *args, **kw):
     """element-wise maximum as an If-term (no fork)"""
     if args or kw:
